@@ -21,7 +21,7 @@ P = {
     'rule': 'a case is a random setup (balances, delegations, allocated rewards, withdraw addresses, staking and ICS-20 transfer grants of the signer) '
             'plus one Ethereum transaction: either EOA -> staking/distribution/ICS-20 precompile or EOA -> script contract running a '
             'random call tree (depth <= 3) of SSTORE / LOG / BALANCE / CALL with value / precompile calls (delegate, undelegate, withdraw, setWithdrawAddress, '
-            'claimRewards, ICS-20 transfer) / SELFDESTRUCT (a fifth of the cases self-destruct-heavy: few contracts called repeatedly) / CREATE with a scripted constructor (value, reverting, code-less, self-destructing constructors; CREATE addresses funded beforehand; a seventh of the cases creation-heavy) / zero-value calls to module accounts / REVERT with catching and '
+            'claimRewards, ICS-20 transfer) / SELFDESTRUCT (a fifth of the cases self-destruct-heavy: few contracts called repeatedly) / CREATE with a scripted constructor (value, reverting, code-less, self-destructing constructors; CREATE addresses funded beforehand; a seventh of the cases creation-heavy) / storage writes that restore the pre-transaction value inside a failing nested frame of the same contract (re-entered directly or through another contract; 5% of the bodies) / zero-value calls to module accounts / REVERT with catching and '
             'propagating callers, executed by the real EvmKeeper.ApplyTransaction; non-trivial = the transaction succeeded; '
             'distinct = distinct (setup, program)',
     'trusted_base': _COMMON_TB,
